@@ -752,3 +752,31 @@ pub(crate) mod verif_hooks_rules {
         )
     }
 }
+
+#[cfg(feature = "verif")]
+pub(crate) mod verif_hooks_codec {
+    use super::*;
+
+    /// `Core::make_tcp_http_codec` for the protocol the TLS demultiplexer selected
+    pub fn make_tcp_http_codec<IO>(
+        protocol: tls_demultiplexer::Protocol,
+        core_settings: Arc<Settings>,
+        io: IO,
+    ) -> io::Result<Box<dyn HttpCodec>>
+    where
+        IO: 'static + AsyncRead + AsyncWrite + Unpin + Send + PeerAddr,
+    {
+        Core::make_tcp_http_codec(protocol, core_settings, io, log_utils::IdChain::empty())
+    }
+
+    pub fn tls_demux(context: &Arc<Context>) -> Arc<RwLock<TlsDemux>> {
+        context.tls_demux.clone()
+    }
+
+    pub fn reload(context: &Arc<Context>, settings: settings::TlsHostsSettings) -> io::Result<()> {
+        Core {
+            context: context.clone(),
+        }
+        .reload_tls_hosts_settings(settings)
+    }
+}
